@@ -1,5 +1,6 @@
 import Pywbem.Model.MofCompile
-open Lean Pywbem.Proto Pywbem.Model Pywbem.Model.MofCompile
+import Pywbem.Model.MofParse
+open Lean Pywbem.Proto Pywbem.Model Pywbem.Model.MofCompile Pywbem.Model.MofParse
 
 /-! C09 driver.  Strings travel as arrays of code points.  Input line = {"op":..., ...}:
   {"op":"lex","src":S}                       -> {"toks":[[kind,pos,len,line,extra]..]}   extra = token type of an
@@ -14,6 +15,10 @@ open Lean Pywbem.Proto Pywbem.Model Pywbem.Model.MofCompile
   {"op":"qualifier","inCache":b,"eq":A,"server":b,"createNs":E,"qualFiles":R,"found":b}
   {"op":"instClass","gc1":A,"mof":null|R,"gc2":A}
   {"op":"cimObject","r":R}
+  {"op":"lr","types":[token type names]}     -> {"accept":n} | {"error":[k,state]} | {"fault":..}   (LALR driver only)
+  {"op":"parse","src":S}                     -> {"accept":true} | {"errtok":[pos,len,line,col,state]} | {"erreof":state}
+                                                | {"raised":true} | {"fault":true}              (lexer + LALR driver)
+  {"op":"wf"}                                -> {"wf":bool,"states":n,"maxRank":n}   (well-formedness evaluated at run time)
   each of the five             -> {"ok":null} | {"exc":..} -/
 
 def natsToJson (s : List Nat) : Json := Json.arr (s.map (fun (n : Nat) => (n : Json))).toArray
@@ -113,6 +118,33 @@ def handle (j : Json) : Json :=
     unitRes (qualifierLookup ((getBool j "inCache").getD false) (ans j "eq") ((getBool j "server").getD false)
       (optExc j "createNs") (resOf j "qualFiles") ((getBool j "found").getD false))
   | some "cimObject" => unitRes (cimObject (resOf j "r"))
+  | some "lr" =>
+    let types := (getArr j "types").filterMap (fun x => match x with | .str s => some s | _ => none)
+    match lrParse mofTable (types.map terminalId) with
+    | .accept n => Json.mkObj [("accept", (n : Nat))]
+    | .errorAt k st => Json.mkObj [("error", Json.arr #[(k : Nat), (st : Nat)])]
+    | .stuck _ _ => Json.mkObj [("fault", "stuck")]
+    | .outOfFuel => Json.mkObj [("fault", "fuel")]
+  | some "parse" =>
+    let src := getNats j "src"
+    match parseText src with
+    | .accept => Json.mkObj [("accept", true)]
+    | .errorAtToken t st => Json.mkObj [("errtok", Json.arr #[(t.pos : Nat), (t.len : Nat), (t.line : Nat),
+        (findColumn src t.pos : Nat), (st : Nat)])]
+    | .errorAtEnd st => Json.mkObj [("erreof", (st : Nat))]
+    | .lexerRaised => Json.mkObj [("raised", true)]
+    | .engineFault => Json.mkObj [("fault", true)]
+  | some "files" =>
+    -- {"op":"files","files":[[STMT..]..],"limit":n,"main":[STMT..]}  STMT = {"file":i} | {"leaf":R}; file i = i-th entry, else missing
+    let parseStmt (x : Json) : Stmt :=
+      match getNat x "file" with
+      | some i => .file i
+      | none => .leaf (resOf x "leaf")
+    let files := (getArr j "files").map (fun f => match f with | .arr a => some (a.toList.map parseStmt) | _ => none)
+    let fs : Files := fun i => (files[i]?).join
+    unitRes (compileUnitG fs ((getNat j "limit").getD 50) ((getArr j "main").map parseStmt))
+  | some "wf" => Json.mkObj [("wf", mofTable.wf), ("states", (mofTable.actionRows.size : Nat)),
+      ("maxRank", (mofTable.maxRank : Nat))]
   | some "instClass" =>
     unitRes (instanceClassLookup (ans j "gc1") (optRes j "mof") (ans j "gc2"))
   | _ => Json.mkObj [("bad", "op")]
